@@ -44,6 +44,7 @@ type Pipe struct {
 	Pre      string      `json:"pre,omitempty"`    // assemble: state of the target before: "" (absent) | junk | partial
 	Seek     int         `json:"seek,omitempty"`   // readseeker: >0: seek into the stream first (selector)
 	Delta    int         `json:"delta,omitempty"`  // inconsistent: index size = true size + Delta
+	Fixed    int         `json:"fixed,omitempty"`  // >0: every chunk has this length (fixed-size chunking / runs of max-size chunks)
 }
 
 func genPipe(t *rapid.T, inconsistent bool) *Pipe {
@@ -60,6 +61,16 @@ func genPipe(t *rapid.T, inconsistent bool) *Pipe {
 	if p.Consumer == cUnTarIndex {
 		for i, k := 0, rapid.IntRange(1, 30).Draw(t, "ntiles"); i < k; i++ {
 			p.Tiling = append(p.Tiling, rapid.IntRange(1, 700).Draw(t, "tile"))
+		}
+	}
+	if p.Consumer != cUnTarIndex && rapid.IntRange(0, 2).Draw(t, "fixedsize") == 0 {
+		// equal-size neighbours: what a reader that keeps a decoded chunk around can confuse
+		p.Fixed = rapid.SampledFrom([]int{1, 2, 48, 100, 1024, 4096}).Draw(t, "fixed")
+		if rapid.Bool().Draw(t, "fixedany") {
+			p.Fixed = rapid.IntRange(1, 3000).Draw(t, "fixedlen")
+		}
+		if len(p.Chunks) < 2 {
+			p.Chunks = append(p.Chunks, genChunkSpec(t, "pc", 3000))
 		}
 	}
 	p.Victim = rapid.IntRange(0, 63).Draw(t, "victim")
@@ -97,6 +108,11 @@ type pipeData struct {
 	idx    desync.Index
 	tree   *catar.Node // untarindex
 	victim int
+	skewed bool // the index was made inconsistent
+
+	// filled by the consumer: after a refused read the same reader/handle was asked again
+	retried         bool
+	retriedSameSize bool // ... and the chunk read just before the refusal has the victim's size
 }
 
 func realID(b []byte) desync.ChunkID { return desync.ChunkID(sha512.Sum512_256(b)) }
@@ -125,9 +141,16 @@ func buildPipe(p *Pipe) *pipeData {
 	var contents [][]byte
 	seen := map[string]bool{}
 	for i, cs := range p.Chunks {
+		if p.Fixed > 0 {
+			cs.Len = p.Fixed
+		}
 		b := cs.bytes()
-		for seen[string(b)] { // keep chunk contents distinct
-			b = append(append([]byte(nil), b...), byte(i+1))
+		for k := i + 1; seen[string(b)]; k++ { // keep chunk contents distinct (and their lengths as drawn)
+			b = append([]byte(nil), b...)
+			b[len(b)-1] ^= byte(k)
+			if k > i+300 {
+				b = append(b, byte(i+1))
+			}
 		}
 		seen[string(b)] = true
 		contents = append(contents, b)
@@ -169,6 +192,9 @@ func buildPipe(p *Pipe) *pipeData {
 		v = -v
 	}
 	v %= len(pieces)
+	if p.Fixed > 0 && len(pieces) > 1 {
+		v = 1 + v%(len(pieces)-1) // a victim with a predecessor
+	}
 	count := map[string]int{}
 	for _, pc := range pieces {
 		count[string(pc)]++
@@ -205,6 +231,7 @@ func (pd *pipeData) skew(delta int) (claimed uint64) {
 	if n == trueLen {
 		n = trueLen + 1
 	}
+	pd.skewed = true
 	pd.idx.Chunks[v].Size = uint64(n)
 	pos := pd.idx.Chunks[v].Start + uint64(n)
 	for i := v + 1; i < len(pd.idx.Chunks); i++ {
@@ -435,6 +462,14 @@ func consumeNow(p *Pipe, pd *pipeData, store desync.Store, rs *desync.IndexPos) 
 		}
 		var buf bytes.Buffer
 		if _, err := io.Copy(&buf, onlyReader{rs}); err != nil {
+			if bad := pd.retryAfterRefusal(func(b []byte, off int64) (int, error) {
+				if _, serr := rs.Seek(off, io.SeekStart); serr != nil {
+					return 0, serr
+				}
+				return onlyReader{rs}.Read(b)
+			}); bad != "" {
+				return errRefusedServed, bad
+			}
 			return err, ""
 		}
 		return nil, diffBytes(want, buf.Bytes())
@@ -475,6 +510,9 @@ func consumeNow(p *Pipe, pd *pipeData, store desync.Store, rs *desync.IndexPos) 
 		buf := make([]byte, to-from)
 		n, rerr := h.ReadAt(buf, from)
 		if rerr != nil && rerr != io.EOF {
+			if bad := pd.retryAfterRefusal(func(b []byte, off int64) (int, error) { return h.ReadAt(b, off) }); bad != "" {
+				return errRefusedServed, bad
+			}
 			return rerr, ""
 		}
 		return nil, diffBytes(pd.blob[from:to], buf[:n])
@@ -494,6 +532,60 @@ func consumeNow(p *Pipe, pd *pipeData, store desync.Store, rs *desync.IndexPos) 
 		return nil, diffEntries(want, got)
 	}
 	return fmt.Errorf("unknown consumer %q", p.Consumer), ""
+}
+
+// retryAfterRefusal: a read through a reader or handle was refused (the poisoned chunk). A
+// caller like a FUSE mount or http.ServeContent comes back to the same reader: the read that
+// runs into the victim from the chunk before it, the victim's first bytes, a range elsewhere
+// in the victim - twice. Every one of these must fail or deliver the blob's bytes; whatever
+// bytes a read reports (with or without an error) must be the blob's. Returns a description
+// of the first read that delivered something else.
+func (pd *pipeData) retryAfterRefusal(readAt func(b []byte, off int64) (int, error)) string {
+	if pd.skewed || len(pd.blob) == 0 {
+		return ""
+	}
+	type rng struct {
+		what   string
+		off, n int64
+	}
+	v := pd.victim
+	c := pd.idx.Chunks[v]
+	var plan []rng
+	if v > 0 {
+		pr := pd.idx.Chunks[v-1]
+		k := min(int64(pr.Size), 3)
+		plan = append(plan, rng{"the end of the chunk before the victim and the victim's first bytes", int64(c.Start) - k, k + min(int64(c.Size), 5)})
+	}
+	plan = append(plan,
+		rng{"the victim's first bytes", int64(c.Start), min(int64(c.Size), 100)},
+		rng{"the second half of the victim", int64(c.Start + c.Size/2), int64(c.Size - c.Size/2)})
+	pd.retried = true
+	pd.retriedSameSize = v > 0 && pd.idx.Chunks[v-1].Size == c.Size
+	for round := 1; round <= 2; round++ {
+		for _, r := range plan {
+			buf := make([]byte, r.n)
+			k, err := readAt(buf, r.off)
+			if k < 0 || int64(k) > r.n {
+				return fmt.Sprintf("retry %d of %s (%d bytes at %d): the read reports %d bytes (err=%v)", round, r.what, r.n, r.off, k, err)
+			}
+			if !bytes.Equal(buf[:k], pd.blob[r.off:r.off+int64(k)]) {
+				j := 0
+				for j < k && buf[j] == pd.blob[r.off+int64(j)] {
+					j++
+				}
+				where := "are not the blob's"
+				if v > 0 {
+					pr := pd.idx.Chunks[v-1]
+					if o := r.off + int64(j) - int64(c.Start); o >= 0 && o < int64(pr.Size) && pd.blob[int64(pr.Start)+o] == buf[j] {
+						where = "are not the blob's (they are the bytes of the chunk before the victim)"
+					}
+				}
+				return fmt.Sprintf("retry %d of %s (%d bytes at %d) after the refusal: the read delivered %d bytes (err=%v) that %s, first difference at offset %d",
+					round, r.what, r.n, r.off, k, err, where, r.off+int64(j))
+			}
+		}
+	}
+	return ""
 }
 
 // onlyReader hides every method but Read; a reader that keeps answering (0, nil) is cut off.
@@ -648,6 +740,8 @@ func runPipeline(c Case) (o hx.Outcome) {
 		recheckHeld(where)
 	}
 	switch {
+	case err == errRefusedServed:
+		o.Fail("C03:"+p.Consumer+":refused-chunk-served", "a read of the poisoned chunk was refused, but when the same reader was asked again %s — %s", diff, where)
 	case err == errPanic:
 		o.Fail("C03:"+p.Consumer+":panic", "the consumer panicked: %s — %s", clip(diff), where)
 	case err == errHang:
@@ -665,6 +759,13 @@ func runPipeline(c Case) (o hx.Outcome) {
 	default:
 		o.Class("result:good-data")
 	}
+	if pd.retried && effective {
+		o.Class("consumer:retry-after-refusal", "consumer:retry-after-refusal:"+p.Consumer)
+		if pd.retriedSameSize {
+			o.Class("consumer:retry-after-refusal:same-size-predecessor")
+		}
+	}
+	desc["fixed"] = p.Fixed
 	if effective {
 		o.Class("effective")
 		if fetched {
